@@ -34,7 +34,7 @@ std::string op_str(const Op& op) {
     case OP_CREATE: {
       const Shape& sh = g_shapes[op.shape];
       o << " e" << (int)op.slot << " := " << site_of(op.shape, op.slot).text << " on obj" << (int)op.obj << " k=(" << (int)op.k1 << ',' << (int)op.k2 << ") clauses=" << sh.clauses;
-      if (sh.tform == TF_RT) o << " RT_TIMES" << bounds(); else o << " tform=" << (int)sh.tform << '(' << (int)sh.tl << ',' << (int)sh.th << ')';
+      if (sh.tform == TF_RT) o << " RT_TIMES" << bounds(); else if (sh.tform == TF_RT1) o << " RT_TIMES(" << (int)op.lo << ')'; else o << " tform=" << (int)sh.tform << '(' << (int)sh.tl << ',' << (int)sh.th << ')';
       if (sh.seqar >= 1) o << " seq=s" << (int)op.s1; if (sh.seqar >= 2) o << ",s" << (int)op.s2;
       if (sh.nwith) { o << " with="; for (int i = 0; i < sh.nwith; ++i) o << (int)op.wmode[i]; }
       if (sh.nse) { o << " se="; for (int i = 0; i < sh.nse; ++i) o << (int)op.semode[i]; }
